@@ -800,6 +800,36 @@ func (c *hCtx) runSeqCheck(name string, sc seqCheck) {
 		}
 	}
 	sizes := c.sizes(sc.min, sc.quick, sc.thorough)
+	if name == "maurer" && c.req.Input == nil {
+		// one 7-bit block value that is absent for 10^5 blocks and then recurs (a distance far beyond 2^12 arriving at an
+		// unrelated moment of whatever running state the implementation keeps); 48 sequences of about 10^6 bits
+		for rep := 0; rep < 48; rep++ {
+			nb := 142857
+			rr := rand.New(rand.NewSource(c.req.Seed*31 + int64(rep)))
+			blocks := make([]int, nb)
+			for k := range blocks {
+				blocks[k] = rr.Intn(128)
+			}
+			v := 0x55 ^ (rep * 9 & 127)
+			for k := 20000; k < 120000; k++ {
+				if blocks[k] == v {
+					blocks[k] ^= 1 << uint(rr.Intn(7))
+				}
+			}
+			b := make([]bool, 7*nb)
+			for k, x := range blocks {
+				for j := 0; j < 7; j++ {
+					b[7*k+j] = x>>(6-uint(j))&1 == 1
+				}
+			}
+			in := map[string]interface{}{"family": "long-gap", "n": len(b), "seed": c.req.Seed*31 + int64(rep), "note": fmt.Sprintf("random 7-bit blocks; value %d removed from blocks 20000..119999 (one random bit flipped)", v)}
+			before := len(c.resp.Findings)
+			c.cmp(name, in, func() []float64 { return sc.run(b, 0) }, func() []float64 { return sc.ref(b, 0) })
+			if len(c.resp.Findings) > before {
+				break
+			}
+		}
+	}
 	wrapN := 8 * 65600 // more than 2^16 equal bytes / blocks: a narrowed counter type wraps
 	if strings.HasSuffix(name, "-bytes") || name == "poker" {
 		sizes = append(sizes, wrapN)
@@ -821,6 +851,49 @@ func (c *hCtx) runSeqCheck(name string, sc seqCheck) {
 				before := len(c.resp.Findings)
 				c.cmp(name, in, func() []float64 { return sc.run(sq.Bits, p) }, func() []float64 { return sc.ref(sq.Bits, p) })
 				if len(c.resp.Findings) > before && len(c.resp.Findings) >= 3 {
+					return
+				}
+			}
+		}
+	}
+}
+
+// igamc-grid: the library's incomplete-gamma tail against the independent series / continued-fraction evaluation, on
+// the shapes the fifteen tests produce (integer and half-integer a up to 5000, a few larger ones) and arguments around
+// the switch-over lines x = 1, x = a and in both tails. Bounded stand-in for "igamc = Q" (C06 is not applicable).
+func (c *hCtx) checkIgamcGrid() {
+	name := "igamc-grid"
+	shapes := []float64{0.5, 1, 1.5, 2, 2.5, 3, 4.5, 7.5, 8, 15, 16, 31.5, 50, 64, 127.5, 128, 250, 500, 1000, 2500, 5000}
+	if c.req.Budget == "thorough" {
+		for a := 0.5; a <= 200; a += 0.5 {
+			shapes = append(shapes, a)
+		}
+		shapes = append(shapes, 10000, 25000, 50000)
+	}
+	factors := []float64{0.001, 0.1, 0.5, 0.8, 0.9, 0.97, 0.99, 1, 1.01, 1.03, 1.1, 1.25, 1.5, 2, 4}
+	for _, a := range shapes {
+		xs := []float64{0, 1e-9, 0.5, 0.999999, 1, 1.000001, a - 1, a + 1, a + 10*math.Sqrt(a), 20*a + 200}
+		for _, f := range factors {
+			xs = append(xs, a*f)
+		}
+		for _, x := range xs {
+			if x < 0 {
+				continue
+			}
+			c.resp.Cases[name]++
+			got := Igamc(a, x)
+			want := refQ(a, x)
+			tol := 1e-9
+			if a > 5000 {
+				tol = 1e-7
+			}
+			d := math.Abs(got - want)
+			if d > c.resp.MaxErr[name] {
+				c.resp.MaxErr[name] = d
+			}
+			if math.IsNaN(got) || got < 0 || got > 1 || d > tol {
+				c.report(name, map[string]interface{}{"a": a, "x": x}, fmt.Sprintf("Igamc = %.15g", got), fmt.Sprintf("Q(a,x) = %.15g (independent evaluation), in [0,1], within %g", want, tol))
+				if len(c.resp.Findings) >= 3 {
 					return
 				}
 			}
@@ -1001,6 +1074,10 @@ func (c *hCtx) checkEntryPoints() {
 					data[i] &= 0xF3
 				}
 			}
+			if rep == 2 {
+				data[0] |= 0x80 // first and last bit set (boundary handling of byte-level fast paths)
+				data[len(data)-1] |= 0x01
+			}
 			bits := B2bitArr(data)
 			in := map[string]interface{}{"bytes": nb, "rep": rep, "seed": c.req.Seed}
 			p2 := func(p, q float64) []float64 { return []float64{p, q} }
@@ -1014,9 +1091,16 @@ func (c *hCtx) checkEntryPoints() {
 			ok = ok && eq("RunsDistributionTestBytes", in, p2(RunsDistributionTestBytes(data)), p2(RunsDistributionTest(bits)))
 			ok = ok && eq("LongestRun bytes(false)", in, p2(LongestRunOfOnesInABlockTestBytes(data, false)), p2(LongestRunOfOnesInABlockProto(bits, false)))
 			ok = ok && eq("BinaryDerivativeTestBytes", in, p2(BinaryDerivativeTestBytes(data, 3)), p2(BinaryDerivativeProto(bits, 3)))
-			ok = ok && eq("AutocorrelationTestBytes", in, p2(AutocorrelationTestBytes(data, 8)), p2(AutocorrelationProto(bits, 8)))
+			for _, d := range []int{1, 2, 3, 8, 16} {
+				ok = ok && eq(fmt.Sprintf("AutocorrelationTestBytes d=%d", d), in, p2(AutocorrelationTestBytes(data, d)), p2(AutocorrelationProto(bits, d)))
+			}
+			ok = ok && eq("BinaryDerivativeTestBytes k=7", in, p2(BinaryDerivativeTestBytes(data, 7)), p2(BinaryDerivativeProto(bits, 7)))
+			ok = ok && eq("FrequencyWithinBlockTestBytes m=7", in, p2(FrequencyWithinBlockTestBytes(data, 7)), p2(FrequencyWithinBlockProto(bits, 7)))
+			ok = ok && eq("LongestRun bytes(true)", in, p2(LongestRunOfOnesInABlockTestBytes(data, true)), p2(LongestRunOfOnesInABlockProto(bits, true)))
 			ok = ok && eq("CumulativeTestBytes(false)", in, p2(CumulativeTestBytes(data, false)), p2(CumulativeTest(bits, false)))
+			ok = ok && eq("CumulativeTestBytes(true)", in, p2(CumulativeTestBytes(data, true)), p2(CumulativeTest(bits, true)))
 			ok = ok && eq("ApproximateEntropyTestBytes", in, p2(ApproximateEntropyTestBytes(data, 2)), p2(ApproximateEntropyProto(bits, 2)))
+			ok = ok && eq("ApproximateEntropyTestBytes m=5", in, p2(ApproximateEntropyTestBytes(data, 5)), p2(ApproximateEntropyProto(bits, 5)))
 			ok = ok && eq("MatrixRankTestBytes", in, p2(MatrixRankTestBytes(data, 32, 32)), p2(MatrixRankProto(bits, 32, 32)))
 			ok = ok && eq("LinearComplexityTestBytes", in, p2(LinearComplexityTestBytes(data, 1000)), p2(LinearComplexityProto(bits, 1000)))
 			ok = ok && eq("MaurerUniversalTestBytes", in, p2(MaurerUniversalTestBytes(data)), p2(MaurerUniversalTest(bits)))
@@ -1164,8 +1248,39 @@ func (c *hCtx) checkSymmetry() {
 }
 
 // C16: finite P/Q in [0,1], P = 2 min(Q,1-Q) for two-sided tests, Q = P for chi-square tests, Pass rule
+// lagSource: bits copy the bit `lag` positions earlier with probability eps, otherwise a fair coin: weak structure that
+// moves one of the two overlapping-subsequence P-values much more than the other.
+func lagSource(seed int64, nbytes, lag int, eps float64) []byte {
+	rnd := rand.New(rand.NewSource(seed))
+	data := make([]byte, nbytes)
+	hist := make([]int, 0, nbytes*8)
+	for i := range data {
+		for j := 0; j < 8; j++ {
+			b := rnd.Intn(2)
+			if k := len(hist); k >= lag && rnd.Float64() < eps {
+				b = hist[k-lag]
+			}
+			hist = append(hist, b)
+			data[i] = data[i]<<1 | byte(b)
+		}
+	}
+	return data
+}
+
 func (c *hCtx) checkWellFormed() {
 	name := "wellformed"
+	// the two P-values of the overlapping test on opposite sides of the 0.01 level
+	for seed := int64(1); seed <= 80; seed++ {
+		eps := []float64{0.03, 0.05, 0.08, 0.12}[seed%4]
+		lag := []int{4, 3}[seed%2]
+		data := lagSource(c.req.Seed*1000+seed, 2500, lag, eps)
+		r := TestMethodArr[3].Runner(data)
+		c.resp.Cases[name]++
+		if want := math.Min(r.P, r.P2) >= 0.01; r.Pass != want {
+			c.report(name, map[string]interface{}{"family": "lag-source", "bytes": 2500, "lag": lag, "eps": eps, "seed": c.req.Seed*1000 + seed}, fmt.Sprintf("item 4 (%s): Pass=%v with P=%v P2=%v", TestMethodArr[3].Name, r.Pass, r.P, r.P2), fmt.Sprintf("Pass=%v", want))
+			return
+		}
+	}
 	sizes := []int{128 * 8, 1121 * 8, 2500 * 8}
 	if c.req.Budget == "thorough" {
 		sizes = append(sizes, 125000*8, 1250000*8)
@@ -1354,6 +1469,8 @@ func TestVerifHarness(t *testing.T) {
 			c.checkSymmetry()
 		case "purity":
 			c.checkPurity()
+		case "igamc-grid":
+			c.checkIgamcGrid()
 		case "wellformed":
 			c.checkWellFormed()
 		default:
